@@ -200,14 +200,19 @@ pub fn mixed_kind2_modules() -> Vec<(String, Vec<String>, Vec<String>)> {
     let perms: [[usize; 3]; 6] = [[0, 1, 2], [0, 2, 1], [1, 0, 2], [1, 2, 0], [2, 0, 1], [2, 1, 0]];
     for kinds in 0..8u32 {
         let (k0, k1, k2) = (kinds & 1 != 0, kinds & 2 != 0, kinds & 4 != 0); // true = tuple
-        for cross in [false, true] {
+        for (cross, implicit) in [(false, false), (true, false), (false, true), (true, true)] {
             let s_tuple = k0 != cross;
+            // implicit: a nested struct of the deriving struct's own kind carries NO hint in #[child_parents] (an entry
+            // without hint means "same kind as the flat struct", whatever the root hint says - seed C03-11)
+            if implicit && k1 != s_tuple && k2 != s_tuple {
+                continue; // nothing to leave out
+            }
             for perm in perms {
                 // perm[i] = which member (0 = a root, 1 = b in N, 2 = c in M) is declared i-th
                 let pos = |m: usize| perm.iter().position(|x| *x == m).unwrap();
                 let a_first = pos(0) < pos(1).min(pos(2));
                 let x_first = pos(1) < pos(2);
-                let hint = |t: bool| if t { "as ()" } else { "as {}" };
+                let hint = |t: bool| if implicit && t == s_tuple { "" } else if t { "as ()" } else { "as {}" };
                 // designators
                 let (a_tgt, n_seg) = if k0 { (if a_first { "0" } else { "1" }, if a_first { "1" } else { "0" }) } else { ("a", "p") };
                 let (x_tgt, m_seg) = if k1 { (if x_first { "0" } else { "1" }, if x_first { "1" } else { "0" }) } else { ("x", "q") };
@@ -230,7 +235,7 @@ pub fn mixed_kind2_modules() -> Vec<(String, Vec<String>, Vec<String>)> {
                 }
                 let m_lit = |y: i64| if k2 { format!("M({})", y) } else { format!("M {{ y: {} }}", y) };
                 let t_lit = |t: &str, a: i64, x: i64, y: i64| lit(t, k0, ("a", a.to_string()), ("p", lit("N", k1, ("x", x.to_string()), ("q", m_lit(y)), !x_first)), !a_first);
-                let h = if cross { format!(" {}", hint(k0)) } else { String::new() };
+                let h = if cross { format!(" {}", if k0 { "as ()" } else { "as {}" }) } else { String::new() };
                 let mut item = format!("#[map(T{h})]\n#[into_existing(T{h})]\n#[try_map(Tf{h}, Er)]\n#[try_into_existing(Tf{h}, Er)]\n");
                 item.push_str(&format!("#[child_parents({}: N {}, {}: M {})]\n", p1, hint(k1), p2, hint(k2)));
                 let decl = |mi: usize| {
@@ -269,7 +274,7 @@ pub fn mixed_kind2_modules() -> Vec<(String, Vec<String>, Vec<String>)> {
                 }
                 m.push_str("}\n");
                 let kn = |t: bool| if t { "tuple" } else { "named" };
-                v.push((m, vec![item], vec!["mixed-kind-2".to_string(), format!("kinds={}/{}/{}", kn(k0), kn(k1), kn(k2)), format!("cross={}", cross), format!("order={:?}", perm)]));
+                v.push((m, vec![item], vec!["mixed-kind-2".to_string(), format!("kinds={}/{}/{}", kn(k0), kn(k1), kn(k2)), format!("cross={}", cross), format!("implicit-hints={}", implicit), format!("order={:?}", perm)]));
             }
         }
     }
@@ -300,6 +305,21 @@ pub fn collect(tier: &str, caps: &Caps, rep: &Report) -> Vec<BItem> {
     );
     rep.add_stats("child-deep", "full", &st);
     eprintln!("  space child-deep: {} choice vectors, {} pruned", st.leaves, st.pruned);
+    {
+        // From + IntoExisting only, no #[child_parents] (seed C03-10): ghosts addressed by child path are still written
+        let co = FlatOpts { max_members: 3, max_ghosts: 2, max_depth: if tier == "quick" { 2 } else { 3 }, existing_only: true, ..FlatOpts::DEF };
+        let cb = if tier == "quick" { Some(4) } else { Some(6) };
+        let st = explore(
+            |ctx| gen_child(ctx, &co),
+            cb,
+            caps,
+            |choices, c| {
+                items.lock().unwrap().push(BItem { space: "child-existing-only".into(), choices: choices.to_vec(), tags: c.tags.clone(), inputs: vec![c.item("S", true).render()], module: c.render_module(), nontrivial: true });
+            },
+        );
+        rep.add_stats("child-existing-only", &cb.map(|b| format!("dev({})", b)).unwrap_or("full".into()), &st);
+        eprintln!("  space child-existing-only: {} choice vectors, {} pruned", st.leaves, st.pruned);
+    }
     let (co, cb) = child_pos_opts(tier);
     let st = explore(
         |ctx| gen_child(ctx, &co),
@@ -337,13 +357,13 @@ pub fn collect(tier: &str, caps: &Caps, rep: &Report) -> Vec<BItem> {
     for (i, (module, inputs, tags)) in mk2.into_iter().enumerate() {
         v.push(BItem { space: "mixed-kind-2".into(), choices: vec![i as u32], tags, inputs, module, nontrivial: true });
     }
-    rep.add_stats("mixed-kind-2", "full (8 kind triples x 2 deriving kinds x 6 member orders)", &crate::explore::ExploreStats { leaves: n2, transitions: n2, ..Default::default() });
+    rep.add_stats("mixed-kind-2", "full (8 kind triples x 2 deriving kinds x explicit / implicit nested hints x 6 member orders)", &crate::explore::ExploreStats { leaves: n2, transitions: n2, ..Default::default() });
     v
 }
 
 pub fn run(tier: &str) -> i32 {
     let rep = Report::new("C03", tier, "model_checking");
-    rep.set_rule("child direction (named structs, and the positional twin `child-pos` with tuple structs and index paths): every prefix-closed subset of the path universe {p, pq, p.q, p.qr, p.q.r, r} (sibling names that are string prefixes of each other; depth <= 3) x 2-4 flat members assigned to root or any node x leaf instruction {none, rename, ~expr} x 0-2 struct-level ghosts addressed by child path (incl. ghost-only nodes) x EVERY permutation of the flat members; `child-deep`: the fixed node set {p, p.q, p.qr, p.q.r} x every assignment of 2-3 (thorough 2-4) plain members to the five structs in every order, exhaustively; mirror direction: parameterised #[parent(..)] with 1-4 leaves at nesting depth 0-2 ([parent(..)] name: Type), renamed and/or with expression, every permutation, parent member first or last; bare #[parent]: 8 fixed layouts (named/tuple, 1-2 parents, order) whose parent types derive their own conversions. Each case is compiled through the real derive by rustc and executed: all 12 kinds x 2 value assignments; From result, nested Into literal and mutated pre-existing IntoExisting value compared leaf by leaf with the model. A nested struct built twice is a duplicate-field compile error, one split in two loses members. states = distinct test modules");
+    rep.set_rule("child direction (named structs, and the positional twin `child-pos` with tuple structs and index paths): every prefix-closed subset of the path universe {p, pq, p.q, p.qr, p.q.r, r} (sibling names that are string prefixes of each other; depth <= 3) x 2-4 flat members assigned to root or any node x leaf instruction {none, rename, ~expr} x 0-2 struct-level ghosts addressed by child path (incl. ghost-only nodes) x EVERY permutation of the flat members; `child-existing-only`: From + IntoExisting only, without #[child_parents], 0-2 ghosts addressed by child path; `child-deep`: the fixed node set {p, p.q, p.qr, p.q.r} x every assignment of 2-3 (thorough 2-4) plain members to the five structs in every order, exhaustively; mirror direction: parameterised #[parent(..)] with 1-4 leaves at nesting depth 0-2 ([parent(..)] name: Type), renamed and/or with expression, every permutation, parent member first or last; bare #[parent]: 8 fixed layouts (named/tuple, 1-2 parents, order) whose parent types derive their own conversions. Each case is compiled through the real derive by rustc and executed: all 12 kinds x 2 value assignments; From result, nested Into literal and mutated pre-existing IntoExisting value compared leaf by leaf with the model. A nested struct built twice is a duplicate-field compile error, one split in two loses members. states = distinct test modules");
     rep.assume("leaves are i32; a case is either named all the way down or positional all the way down (space child-pos: tuple structs, index paths written `1 .0`, designated positions = members, nested structs, ghosts); exploration is deviation-bounded (bound in `spaces`)");
     let caps = Caps::from_env(if tier == "quick" { 200.0 } else { 1500.0 });
     let items = collect(tier, &caps, &rep);
@@ -358,10 +378,10 @@ pub fn replay(f: &Failure) -> i32 {
     let mut obs = vec![];
     for round in 0..2 {
         let item = match f.space.as_str() {
-            "child" | "child-pos" | "child-deep" => {
+            "child" | "child-pos" | "child-deep" | "child-existing-only" => {
                 let mut found = None;
                 for t in ["quick", "thorough"] {
-                    let (o, _) = if f.space == "child" { child_opts(t) } else if f.space == "child-deep" { (child_deep_opts(t), None) } else { child_pos_opts(t) };
+                    let (o, _) = if f.space == "child-existing-only" { (FlatOpts { max_members: 3, max_ghosts: 2, max_depth: if t == "quick" { 2 } else { 3 }, existing_only: true, ..FlatOpts::DEF }, None) } else if f.space == "child" { child_opts(t) } else if f.space == "child-deep" { (child_deep_opts(t), None) } else { child_pos_opts(t) };
                     let (c, full) = replay_one(|ctx| gen_child(ctx, &o), &f.choices);
                     if let Some(c) = c {
                         if full == f.choices && c.item("S", true).render() == f.input {
